@@ -187,7 +187,7 @@ func (g *Gen) Boundary(md protoreflect.MessageDescriptor) []Case {
 		name := string(fd.Name())
 		switch {
 		case fd.IsMap():
-			for _, n := range []int{0, 1, 3} {
+			for _, n := range []int{0, 1, 3, 5} {
 				m := mk()
 				mp := m.Mutable(fd).Map()
 				for i := 0; i < n; i++ {
@@ -195,6 +195,15 @@ func (g *Gen) Boundary(md protoreflect.MessageDescriptor) []Case {
 					mp.Set(k, g.mapVal(mp, fd.MapValue(), i))
 				}
 				out = append(out, Case{Msg: m, Class: "map-n" + u64label(uint64(n)), Field: name})
+			}
+			if fd.MapKey().Kind() == protoreflect.StringKind {
+				// one entry whose key alone pushes the entry size over the one-byte length limit (117..135 bytes)
+				for _, kl := range []int{117, 121, 127, 135} {
+					m := mk()
+					mp := m.Mutable(fd).Map()
+					mp.Set(protoreflect.ValueOfString(strings.Repeat("L", kl)).MapKey(), g.mapVal(mp, fd.MapValue(), 1))
+					out = append(out, Case{Msg: m, Class: "map-longkey" + u64label(uint64(kl)), Field: name})
+				}
 			}
 		case fd.IsList():
 			if fd.Kind() == protoreflect.MessageKind {
@@ -300,6 +309,10 @@ func (g *Gen) mapKey(kfd protoreflect.FieldDescriptor, i int) protoreflect.MapKe
 	case protoreflect.BoolKind:
 		return protoreflect.ValueOfBool(i%2 == 1).MapKey()
 	case protoreflect.StringKind:
+		if i%7 == 3 {
+			// long keys: the entry's own length prefix then needs two bytes whatever the value kind
+			return protoreflect.ValueOfString(strings.Repeat("K", 116+i)).MapKey()
+		}
 		return protoreflect.ValueOfString([]string{"", "k", "key-✓"}[i%3] + strings.Repeat("z", i/3)).MapKey()
 	case protoreflect.Int32Kind, protoreflect.Sint32Kind, protoreflect.Sfixed32Kind:
 		return protoreflect.ValueOfInt32([]int32{0, -1, math.MaxInt32, math.MinInt32, 300}[i%5] + int32(i/5)).MapKey()
